@@ -460,6 +460,8 @@ impl<'a> PestModel<'a> {
                 }
                 Ok(true)
             }
+            // only the unoptimized AST has counted repetitions; pest never sees them
+            Ex::RepCount(..) => Err(Abort::Diverge),
             Ex::Skip(strings) => {
                 let bytes = self.input.as_bytes();
                 let len = bytes.len();
